@@ -806,9 +806,15 @@ func copyObject(obj Object) Object {
 
 		return &Map{Value: m}
 	case *List:
-		l := make([]Object, len(o.Value))
-		for i, v := range o.Value {
-			l[i] = copyObject(v)
+		l := make([]Object, 0, len(o.Value))
+
+		for _, v := range o.Value {
+			if v == nil {
+				// an element removed earlier in the same update expression
+				continue
+			}
+
+			l = append(l, copyObject(v))
 		}
 
 		return &List{Value: l}
